@@ -20,14 +20,38 @@ class SVCase:
     config: Dict[str, Any] = field(default_factory=dict)
 
 
+def _clash_const_and_enum_member(draw: Any, unit: Any) -> None:
+    """Only for checks that execute generated PYTHON alone: a member of a top-level enum gets the name of an integer constant of
+    the same file (different scopes of the schema, so both are legal and a capacity written `SLOTS` still means the constant; in
+    generated Python both become module-level names, the later one rebinding the earlier - harmless as long as nothing generated
+    looks a value up by such a name at run time)."""
+    from .model import Const, Enum
+
+    for f in unit.files:
+        consts = [it for it in f.items if isinstance(it, Const) and isinstance(it.value, int) and not isinstance(it.value, bool)]
+        enums = [it for it in f.items if isinstance(it, Enum) and it.members]
+        if not consts or not enums:
+            continue
+        c = consts[draw(st.integers(0, len(consts) - 1))]
+        e = enums[draw(st.integers(0, len(enums) - 1))]
+        k = draw(st.integers(0, len(e.members) - 1))
+        if any(n == c.name for n, _ in e.members):
+            continue
+        e.members[k] = (c.name, e.members[k][1])
+
+
 @st.composite
-def sv_cases(draw: Any, feat: Optional[S.Features] = None, nrand: int = 2, max_leaves_for_values: int = 4000, config: Optional[st.SearchStrategy] = None) -> SVCase:
+def sv_cases(draw: Any, feat: Optional[S.Features] = None, nrand: int = 2, max_leaves_for_values: int = 4000, config: Optional[st.SearchStrategy] = None, python_only: bool = False) -> SVCase:
     from dataclasses import replace
 
     feat = feat or S.Features()
     if feat.big:
         feat = replace(feat, extremes=True, keyword_field_names=True, subdirs=True, odd_file_names=True, long_names=True)
     unit = draw(S.units(feat))
+    if feat.style_names and draw(st.integers(0, 4)) == 3:
+        S.generated_like_names(draw, unit)  # fields called bp_..., encode_..., size_..., json_...
+    if python_only and draw(st.integers(0, 3)) == 0:
+        _clash_const_and_enum_member(draw, unit)
     # a satisfied `option max_bytes` must change nothing (C08/C13 own its acceptance boundary)
     for m in unit_messages(unit):
         if m.max_bytes is None and ref.nbits(m) > 0 and draw(st.integers(0, 9)) == 0:
